@@ -22,7 +22,79 @@ META = {
 }
 
 
+def cavity_vector_case(rep, r: dict) -> None:
+    """vectorised cavity (alone / inside a Segment): the reference energy of every vector entry changes by exactly
+    voltage*cos(phase) of that entry; particle number, charges and survival are untouched"""
+    import math
+    import numpy as np
+    import torch
+    import cheetah
+    F64 = torch.float64
+    V, ph, En, bt, where = r["V"], r["phase"], r["energy"], r["beam"], r["where"]
+    P = np.asarray(r["particles"], dtype=float)
+    zeros = "none" if all(v != 0 for v in V) else ("all" if all(v == 0 for v in V) else "some")
+    sig = f"C10|Cavity|vectorised voltage, zeros:{zeros}|{bt}|{where}|"
+    try:
+        cav = cheetah.Cavity(length=torch.tensor(r["L"], dtype=F64), voltage=torch.tensor(V, dtype=F64),
+                             phase=torch.tensor(ph, dtype=F64), frequency=torch.tensor(1.3e9, dtype=F64), dtype=F64, name="cav")
+        el = cav if where == "alone" else cheetah.Segment([cheetah.Drift(length=torch.tensor(0.3, dtype=F64), dtype=F64), cav,
+                                                            cheetah.Drift(length=torch.tensor(0.2, dtype=F64), dtype=F64)])
+        q = torch.full((P.shape[0],), 1e-12, dtype=F64)
+        surv = torch.tensor(r["survival"], dtype=F64)
+        if bt == "ParticleBeam":
+            b = cheetah.ParticleBeam(torch.tensor(P, dtype=F64), torch.tensor(En, dtype=F64), particle_charges=q,
+                                     survival_probabilities=surv, dtype=F64)
+        else:
+            Pt = torch.tensor(P, dtype=F64)
+            mu = Pt.mean(dim=0)
+            cov = torch.cov(Pt.T)
+            b = cheetah.ParameterBeam(mu, cov, torch.tensor(En, dtype=F64), total_charge=torch.tensor(1e-10, dtype=F64), dtype=F64)
+        out = el.track(b)
+        e_out = out.energy.detach().numpy().reshape(-1) * np.ones(len(V))
+    except Exception as e:  # noqa: BLE001
+        rep.fail("falsifier", sig + "raises", f"Cavity with voltages {V} ({where}, {bt}): {type(e).__name__}: {e}", r)
+        return
+    want = [En + v * math.cos(math.radians(p_)) for v, p_ in zip(V, ph)]
+    bad = [i for i, (a, w) in enumerate(zip(e_out, want)) if not abs(a - w) <= 1e-12 * max(abs(w), En)]
+    if bad:
+        i = bad[0]
+        rep.fail("falsifier", sig + "energy", f"Cavity with voltages {V}, phases {ph} deg ({where}, {bt}): outgoing reference energy of "
+                 f"entry {i} is {e_out[i]!r}, incoming {En!r} + voltage*cos(phase) = {want[i]!r}", r)
+        return
+    if bt == "ParticleBeam":
+        if out.particles.shape[-2] != P.shape[0] or not torch.equal(out.particle_charges.broadcast_to(q.shape), q) \
+                or not torch.equal(out.survival_probabilities.broadcast_to(surv.shape) if out.survival_probabilities.dim() == 1
+                                   else out.survival_probabilities[0], surv):
+            rep.fail("falsifier", sig + "charge/survival", f"Cavity with voltages {V} ({where}): particle number, charges or survival changed", r)
+    else:
+        if not torch.equal(out.total_charge.reshape(-1)[0], b.total_charge.reshape(-1)[0]):
+            rep.fail("falsifier", sig + "charge/survival", f"Cavity with voltages {V} ({where}): total charge changed", r)
+
+
+def cavity_vector_probe(ctx, n: int) -> None:
+    import lattices as LT
+    import elements as E
+    rep, rng = ctx.report, ctx.rng
+    for _ in range(n):
+        B = int(rng.integers(2, 4))
+        pat = ["none", "some", "some", "all"][int(rng.integers(4))]
+        V = [float(E.pick(rng, 1e7, 2e7, 5e6, -1e7, 3.3e6)) for _ in range(B)]
+        if pat == "all":
+            V = [0.0] * B
+        elif pat == "some":
+            V[int(rng.integers(B))] = 0.0
+        ph = [float(E.pick(rng, 0.0, 30.0, 60.0, 180.0, -45.0, 90.0)) for _ in range(B)]
+        r = {"kind": "cavity_vector", "V": V, "phase": ph, "L": float(E.pick(rng, 1.0, 0.5, 1.0377)), "energy": float(E.pick(rng, 1e8, 6e6 + 1e8, 1.3e9)),
+             "beam": ["ParticleBeam", "ParameterBeam"][int(rng.integers(2))], "where": ["alone", "segment"][int(rng.integers(2))],
+             "particles": LT.gen_particles(rng, 6).tolist(), "survival": [float(E.pick(rng, 1.0, 1.0, 0.0, 0.5)) for _ in range(6)]}
+        rep.fals_cases += 1
+        rep.case(("cavity_vector", pat, r["beam"], r["where"]), {k: r[k] for k in ("V", "phase", "beam", "where")})
+        rep.count(f"cavity_vector:{pat}")
+        cavity_vector_case(rep, r)
+
+
 def run(ctx) -> None:
+    cavity_vector_probe(ctx, ctx.n(16, 300))
     run_track_correspondence(ctx, "C10", ctx.n(10, 250), kinds=["Aperture", "Aperture", "Screen", "Cavity", "BPM", "Drift"])
     run_stats_correspondence(ctx, "C10", ctx.n(80, 2000))
     if F is not None:
@@ -30,6 +102,8 @@ def run(ctx) -> None:
 
 
 def corpus_case(ctx, r: dict) -> None:
+    if r.get("kind") == "cavity_vector":
+        return cavity_vector_case(ctx.report, r)
     if F is not None and hasattr(F, "corpus_case"):
         F.corpus_case(ctx, r)
 
